@@ -62,7 +62,7 @@ func (c16) execArgv(ws []string) (string, []Fail) {
 		av = sp.argv()
 	case "dist":
 		for _, w := range ws[2:] {
-			if w == "long" || strings.HasPrefix(w, "lay=") || strings.HasPrefix(w, "perm=") {
+			if w == "long" || strings.HasPrefix(w, "lay=") || strings.HasPrefix(w, "perm=") || strings.HasPrefix(w, "rawpat=") {
 				return "bad-op", nil
 			}
 		}
